@@ -8,6 +8,15 @@ type PropertyDef struct {
 
 // Properties is the registry of E2 checks.
 var Properties = map[string]PropertyDef{
+	"C06": {Cases: C06Cases, Config: func(tier string) Config {
+		c := Config{
+			Functions: []string{"redistribute.NewParticipant/WithTrustedAnchorID", "redistribute.Participant.Round1/Round2/Round3", "hjky.Participant.Round1/Round2", "session.Context.SubContext", "feldman.Scheme.Deal/Verify/ConvertShareToAdditive/ConvertLiftedShareToAdditive", "mpc.NewBaseShard", "accessstructures.InducedMSP", "trusteddealer.Deal"},
+			Bounds:  map[string]any{"histories": "every single operation from 3 start structures; all pairs (first op × 4 second ops) from threshold(2,3) (quick); also from the CNF start and all triples (thorough)", "operations": "refresh, recover a lost share (2 positions), redistribute to 5 structures incl. different holder sets, with/without trusted anchor", "shares, zero sharings, re-sharing randomness": "symbolic"},
+			Assumes: []string{"fresh random draws non-zero", "ROM idealisation for transcript hashes", "the documented measure-zero retry abort of the zero sharing is excluded"},
+			Outside: []string{"networked runner", "histories longer than 3", "signing after each epoch (covered separately by C01 on dealt shards)", "real curves"},
+		}
+		return c
+	}},
 	"C01": {Cases: C01Cases, Config: func(tier string) Config {
 		c := Config{
 			Functions: []string{"signing.NewCosigner", "Cosigner.Round1/Round2/Round3/ComputePartialSignature/computeEffectivePartialPublicKeys", "signing.NewAggregator/NewCosigningAggregator", "Aggregator.Aggregate", "hjky.Participant.Round1/Round2", "lindell22 dlogProve/dlogVerify (Fiat–Shamir Schnorr PoK)", "hashcom Commit/Open (real BLAKE2b over handles)", "schnorrlike.VerifierTrait.Verify", "feldman.Scheme.ConvertShareToAdditive/ConvertLiftedShareToAdditive", "kw/msp ReconstructionCoefficients", "przs.SampleZeroShare", "trusteddealer.Deal", "keygen.NewShard"},
